@@ -28,22 +28,22 @@ type xVotes struct {
 	Pc []string `json:"pc"`
 }
 type xProj struct {
-	H       uint64             `json:"h"`
-	R       uint32             `json:"r"`
-	Step    int                `json:"step"`
-	HasProp bool               `json:"hasProp"`
-	Pol     uint32             `json:"pol"`
-	Pblock  string             `json:"pblock"`
-	Pparts  string             `json:"pparts"`
-	LockedR uint32             `json:"lockedR"`
-	LockedB string             `json:"lockedB"`
-	ValidR  uint32             `json:"validR"`
-	ValidB  string             `json:"validB"`
-	CommitR uint32             `json:"commitR"`
-	Ttp     bool               `json:"ttp"`
-	Rounds  []int              `json:"rounds"`
-	Votes   json.RawMessage    `json:"votes"`
-	Last    []string           `json:"last"`
+	H       uint64          `json:"h"`
+	R       uint32          `json:"r"`
+	Step    int             `json:"step"`
+	HasProp bool            `json:"hasProp"`
+	Pol     uint32          `json:"pol"`
+	Pblock  string          `json:"pblock"`
+	Pparts  string          `json:"pparts"`
+	LockedR uint32          `json:"lockedR"`
+	LockedB string          `json:"lockedB"`
+	ValidR  uint32          `json:"validR"`
+	ValidB  string          `json:"validB"`
+	CommitR uint32          `json:"commitR"`
+	Ttp     bool            `json:"ttp"`
+	Rounds  []int           `json:"rounds"`
+	Votes   json.RawMessage `json:"votes"`
+	Last    []string        `json:"last"`
 	votes   map[int]xVotes
 }
 type xOut struct {
@@ -127,7 +127,7 @@ type envDriver struct {
 	inq    []consensus.Message
 	hb     map[uint64]*hblocks
 	myBid  string
-	unbind string // set when the abstract names cannot be bound to real blocks any more
+	unbind string                 // set when the abstract names cannot be bound to real blocks any more
 	votes  map[string]*types.Vote // a re-delivered abstract vote is the identical real message
 }
 
